@@ -37,7 +37,8 @@ var stmtTargets = map[string][]string{
 	"/repo/storage/table/fsm/fsm.go":                 {"Lookup", "Update"},
 	"/repo/storage/table/fsm/command.go":             {"Commit", "EnsureIndexed"},
 	"/repo/storage/table/fsm/command_txn.go":         {"handleTxn", "handleTxnOps"},
-	"/repo/storage/table/fsm/query.go":               {"lookup", "rangeLookup", "singleLookup", "iteratorLookup"},
+	"/repo/storage/table/fsm/query.go":               {"lookup", "rangeLookup", "singleLookup", "iteratorLookup", "commandSnapshot"},
+	"/repo/regattaserver/replication.go":             {"Stream"}, // the leader side of a follower recovery (C07: a write lands before every statement)
 	"/repo/storage/table/fsm/iter.go":                {"iterate"},
 	"/repo/storage/table/fsm/snapshot_snapshot.go":   {"recover"},
 	"/repo/storage/table/fsm/snapshot_checkpoint.go": {"recover"},
